@@ -1,6 +1,9 @@
 package vsched
 
-import "fmt"
+import (
+	"fmt"
+	"unsafe"
+)
 
 type item struct {
 	val any
@@ -137,7 +140,40 @@ func (w *World) commAlts(g *G, p *pend, out []int32) []int32 {
 	if len(out) == n0 && p.hasDefault {
 		out = append(out, altDefault)
 	}
+	if g.stutterSig != 0 && len(out)-n0 > 1 && g.stutterSig == selSig(p) {
+		// Select fairness: the goroutine came straight back to the same select after taking a closed-channel
+		// receive (e.g. `case m := <-closed: continue`).  Go's select picks uniformly among the ready cases, so
+		// repeating that alternative forever has probability 0, and repeating it once more leads to no new
+		// state outside the goroutine.  It is not offered again while another alternative is ready.
+		k := n0
+		for _, a := range out[n0:] {
+			if a != g.stutterAlt {
+				out[k] = a
+				k++
+			}
+		}
+		out = out[:k]
+	}
 	return out
+}
+
+// selSig identifies a select by its channels and directions.
+func selSig(p *pend) uint64 {
+	h := uint64(0x51)
+	for i := range p.cases {
+		v := uint64(uintptr(unsafe.Pointer(p.cases[i].c)))
+		if p.cases[i].send {
+			v ^= 1
+		}
+		h = mix(h, v)
+	}
+	if p.hasDefault {
+		h = mix(h, 7)
+	}
+	if h == 0 {
+		h = 1
+	}
+	return h
 }
 
 // partners appends one alternative per goroutine blocked (in an operation without default) on the
@@ -164,21 +200,12 @@ func (w *World) comm(cases []selCase, hasDefault bool, name string) (idx int, va
 	g := w.cur
 	switch alt {
 	case altResume:
-		// the partner performed the rendezvous (and the clocks) for us; "resumed" differs from "completed, parked"
-		w.setH(g, mix(g.h, 0x52))
+		// the partner performed the rendezvous (and the clocks) for us
 		return p.resIdx, p.resVal, p.resOK
 	case altDefault:
 		if g.low {
 			w.lowViolation(g, "select default")
 		}
-		objs := make([]*Obj, 0, len(cases))
-		for i := range cases {
-			if cases[i].c != nil {
-				objs = append(objs, &cases[i].c.Obj)
-			}
-		}
-		// a default is a pure read of the channels' states: it commutes with other reads
-		w.readHash(g, 0xd0, objs)
 		return -1, nil, false
 	}
 	ci, partner := decAlt(alt)
@@ -207,16 +234,6 @@ func (w *World) comm(cases []selCase, hasDefault bool, name string) (idx int, va
 		g.vc.tick(g.idx)
 		o.vc.tick(o.idx)
 		c.sends++
-		hg, ho := g.h, o.h
-		w.setH(g, mix(mix(mix(hg, 0xa0+uint64(ci)), c.last), ho))
-		w.setH(o, mix(mix(mix(ho, 0xb0+uint64(j)), c.last), hg))
-		c.last = mix(g.h, o.h)
-		w.share(g, &c.Obj)
-		w.share(o, &c.Obj)
-		if w.record {
-			w.touch(g, &c.Obj)
-			w.touch(o, &c.Obj)
-		}
 		op.completed = true
 		op.resIdx = j
 		if cs.send {
@@ -229,7 +246,6 @@ func (w *World) comm(cases []selCase, hasDefault bool, name string) (idx int, va
 	// buffered / closed path
 	if cs.send {
 		if c.closed {
-			w.stepHash(g, 0xc0+uint64(ci), []*Obj{&c.Obj})
 			panic("send on closed channel")
 		}
 		if g.low {
@@ -243,7 +259,6 @@ func (w *World) comm(cases []selCase, hasDefault bool, name string) (idx int, va
 		c.sends++
 		c.buf = append(c.buf, item{val: cs.val, vc: g.vc.clone()})
 		g.vc.tick(g.idx)
-		w.stepHash(g, 0xc0+uint64(ci), []*Obj{&c.Obj})
 		return ci, nil, false
 	}
 	if len(c.buf) > 0 {
@@ -257,7 +272,6 @@ func (w *World) comm(cases []selCase, hasDefault bool, name string) (idx int, va
 		c.recvVCs[c.nrecv%c.cap] = g.vc.clone()
 		c.nrecv++
 		g.vc.tick(g.idx)
-		w.stepHash(g, 0xe0+uint64(ci), []*Obj{&c.Obj})
 		return ci, it.val, true
 	}
 	if !c.closed {
@@ -267,10 +281,9 @@ func (w *World) comm(cases []selCase, hasDefault bool, name string) (idx int, va
 		w.lowViolation(g, "receive on a channel that carries values")
 	}
 	g.vc.join(c.closeVC)
-	// A receive that observes "closed and drained" is a pure read: it commutes with every other such
-	// read and is ordered only after the close / the receives that drained the buffer (whose hash it
-	// folds in).  It is therefore not recorded as a write on the channel object.
-	w.readHash(g, 0xf0+uint64(ci), []*Obj{&c.Obj})
+	if len(cases) > 1 {
+		g.stutterSig, g.stutterAlt = selSig(p), alt
+	}
 	return ci, nil, false
 }
 
@@ -327,12 +340,11 @@ func (ch *Chan[T]) Close() {
 		panic("close of nil channel")
 	}
 	c := &ch.c
-	w.yield(&pend{kind: opClose, name: "close " + c.Label})
+	w.yield(&pend{kind: opClose, name: "close " + c.Label, objs: []*Obj{&c.Obj}})
 	g := w.cur
 	if g.low {
 		w.lowViolation(g, "close")
 	}
-	w.stepHash(g, 0x10, []*Obj{&c.Obj})
 	if c.closed {
 		panic("close of closed channel")
 	}
